@@ -9,6 +9,11 @@ CHECKS = {
          "Every input of four finite spaces (S1 construct product with slots filled regardless of sense, S2 every single token/line/truncation edit of 18 seeds, S3 import closures, S4 all byte strings up to length 3 (thorough 4) over 27 bytes) is compiled by the real parse.Parser in worker subprocesses; the oracle is model-xor-error, no panic on any goroutine, no process exit, termination. Representatives go through the built sysl binary (exit 0 with output, or non-zero with a message, no Go crash text).",
          "inputs outside the enumerated spaces are not covered; 60 s per compile before non-termination is declared",
          "DESIGN.md §4 C01"),
+ "C02": ("exploration",
+         "bounded-exhaustive generation from an abstract specification language, rendered to text, compiled by the real parser, and compared with an independently computed intended summary (reference model) via a projection of the protobuf model",
+         "Six completely enumerated sub-spaces (field descriptors x positions, ordered pairs of member constructs, statement forests and width sweeps, REST trees, attribute forms x attachable elements and slot pairs, value boundaries), each under rotating (thorough: all) layouts. The projection of the compiled module must equal, line for line, the summary computed from the abstract description alone: nothing missing, nothing extra.",
+         "the summary follows the language's documented representation conventions (listed in evidence.assumptions); constructs outside the alphabets are not covered",
+         "DESIGN.md §3.5, §4 C02"),
  "C03": ("exploration",
          "metamorphic bounded-exhaustive exploration: every seed x every global re-indentation x a blank line / comment inserted at every position (deviation-bounded), compared by proto equality modulo locations on the real parser",
          "Seeds are every compiling .sysl file of the repository plus generated seeds; each is recompiled under indent scaling (x2, x3, exact /2, /4), four tab rules, a blank line before every line, and four comment variants (text or bare '#', at the line's indentation or column 0) before every declaration line; quick applies one local deviation at every position of small seeds, thorough the whole corpus and pairs on small seeds. Acceptance must be preserved and the models equal once source contexts are cleared.",
